@@ -175,6 +175,17 @@ struct World {
         d.spline(*a * S2(*grid));
         break;
       }
+      case 12: {  // move the thread-owned copy around (move construction / assignment of objects sharing the grid), grid data handle
+        S2 t(std::move(*owned[tid]));
+        d.u(owned[tid]->getSupport().size());
+        *owned[tid] = std::move(t);
+        d.spline(*owned[tid]);
+        auto data = grid->getData();  // copy of the shared_ptr to the grid points
+        d.u(data->size());
+        support::Grid<T> g3(data);    // a new Grid object over the same storage (validates the points again)
+        d.u(g3 == *grid);
+        break;
+      }
       case 8: {  // support algebra on shared const supports
         auto u1 = sup->calcUnion(a->getSupport());
         auto i1 = sup->calcIntersection(b->getSupport());
@@ -189,9 +200,9 @@ struct World {
 
 static World<double> *w0;
 static World<Dbl> *w1;
-static const char *OPN[] = {"evaluate", "copy+destroy", "combine", "transform", "integrate", "generate", "isZero", "destroy-owned", "support-algebra", "combine-with-equal-grid-copy", "position-powers", "lincomb+quadrature"};
+static const char *OPN[] = {"evaluate", "copy+destroy", "combine", "transform", "integrate", "generate", "isZero", "destroy-owned", "support-algebra", "combine-with-equal-grid-copy", "position-powers", "lincomb+quadrature", "move-owned+grid-data"};
 extern "C" {
-int c18_nops() { return 12; }
+int c18_nops() { return 13; }
 const char *c18_opname(int op) { return OPN[op]; }
 void c18_setup(int variant) {
   if (variant == 0) { w0 = new World<double>(); w0->setup(); }
